@@ -1,0 +1,187 @@
+//! Verification hooks.
+//!
+//! This module is only compiled with `--cfg remoc_verif` and is not part of
+//! the public API. It lets an external deterministic-simulation harness
+//! take over the sources of non-determinism of this crate:
+//!
+//!   * the scheduling of internally spawned tasks (poll deferral),
+//!   * the helper threads used for streaming (de)serialization,
+//!   * the random numbers used for port numbers and storage keys.
+//!
+//! No state of the crate is read or modified by the hooks.
+//! Without installed hooks everything behaves as in a normal build.
+
+use std::{
+    future::Future,
+    panic,
+    pin::Pin,
+    sync::OnceLock,
+    task::{Context, Poll},
+};
+use tokio::task::JoinHandle;
+
+/// Future type handed to [Hooks::block_on].
+pub type BlockOnFuture<'a> = Pin<&'a mut (dyn Future<Output = ()> + 'a)>;
+
+/// Hook functions installed by the harness.
+pub struct Hooks {
+    /// A task is created by `exec::spawn`. Returns the task id, or `None`
+    /// if the current thread is not under harness control.
+    pub task_new: fn() -> Option<u64>,
+    /// The task has been dropped (completed or aborted).
+    pub task_drop: fn(u64),
+    /// Called before each poll of a task.
+    /// Returns `true` to poll now and `false` to defer the poll.
+    pub before_poll: fn(u64) -> bool,
+    /// Called after each poll of a task; `ready` tells whether it completed.
+    pub after_poll: fn(u64, bool),
+    /// Runs the closure on a harness-controlled helper thread.
+    /// Returns the closure back if the current thread is not under harness control.
+    pub spawn_blocking:
+        fn(Box<dyn FnOnce() + Send + 'static>) -> Result<(), Box<dyn FnOnce() + Send + 'static>>,
+    /// Blocks the current helper thread on the future.
+    /// Returns `false` without polling if the current thread is not a harness helper thread.
+    pub block_on: fn(BlockOnFuture<'_>) -> bool,
+    /// Random number for port allocation.
+    pub random_u32: fn() -> Option<u32>,
+    /// Random number for storage keys.
+    pub random_u128: fn() -> Option<u128>,
+}
+
+static HOOKS: OnceLock<Hooks> = OnceLock::new();
+
+/// Installs the hooks. Can only be done once per process.
+pub fn install(hooks: Hooks) -> bool {
+    HOOKS.set(hooks).is_ok()
+}
+
+/// Task adapter that lets the harness defer polls.
+struct Adapter<F> {
+    id: u64,
+    hooks: &'static Hooks,
+    fut: Pin<Box<F>>,
+}
+
+impl<F: Future> Future for Adapter<F> {
+    type Output = F::Output;
+
+    fn poll(self: Pin<&mut Self>, cx: &mut Context<'_>) -> Poll<Self::Output> {
+        let this = Pin::into_inner(self);
+
+        if !(this.hooks.before_poll)(this.id) {
+            cx.waker().wake_by_ref();
+            return Poll::Pending;
+        }
+
+        let res = this.fut.as_mut().poll(cx);
+        (this.hooks.after_poll)(this.id, res.is_ready());
+        res
+    }
+}
+
+impl<F> Drop for Adapter<F> {
+    fn drop(&mut self) {
+        (self.hooks.task_drop)(self.id);
+    }
+}
+
+/// Spawns a task, wrapped into the poll-deferral adapter if hooks are installed.
+#[track_caller]
+pub fn spawn<F>(future: F) -> JoinHandle<F::Output>
+where
+    F: Future + Send + 'static,
+    F::Output: Send + 'static,
+{
+    if let Some(hooks) = HOOKS.get()
+        && let Some(id) = (hooks.task_new)()
+    {
+        return tokio::task::spawn(Adapter { id, hooks, fut: Box::pin(future) });
+    }
+
+    tokio::task::spawn(future)
+}
+
+/// Runs the closure on a helper thread.
+#[track_caller]
+pub fn spawn_blocking<F, R>(f: F) -> JoinHandle<R>
+where
+    F: FnOnce() -> R + Send + 'static,
+    R: Send + 'static,
+{
+    let Some(hooks) = HOOKS.get() else { return tokio::task::spawn_blocking(f) };
+
+    let (tx, rx) = tokio::sync::oneshot::channel();
+    let job: Box<dyn FnOnce() + Send + 'static> = Box::new(move || {
+        let res = panic::catch_unwind(panic::AssertUnwindSafe(f));
+        let _ = tx.send(res);
+    });
+
+    match (hooks.spawn_blocking)(job) {
+        Ok(()) => spawn(async move {
+            match rx.await {
+                Ok(Ok(res)) => res,
+                Ok(Err(payload)) => panic::resume_unwind(payload),
+                Err(_) => panic!("helper thread vanished"),
+            }
+        }),
+        Err(job) => tokio::task::spawn_blocking(move || {
+            job();
+            match rx.blocking_recv() {
+                Ok(Ok(res)) => res,
+                Ok(Err(payload)) => panic::resume_unwind(payload),
+                Err(_) => panic!("helper job vanished"),
+            }
+        }),
+    }
+}
+
+/// Blocks the current helper thread on the future, if it is under harness control.
+fn block_on<F: Future>(future: F) -> Result<F::Output, F> {
+    let Some(hooks) = HOOKS.get() else { return Err(future) };
+
+    let mut output = None;
+    let mut future = Some(future);
+    {
+        let mut wrapped = std::pin::pin!(async {
+            // Only polled if the hook accepts the future.
+            output = Some(future.take().unwrap().await);
+        });
+        let wrapped: BlockOnFuture<'_> = wrapped.as_mut();
+        let _polled = (hooks.block_on)(wrapped);
+    }
+
+    match (output, future) {
+        (Some(output), _) => Ok(output),
+        (None, Some(future)) => Err(future),
+        (None, None) => unreachable!("future consumed without output"),
+    }
+}
+
+/// Replacement for `tokio::sync::mpsc::Sender::blocking_send` on harness helper threads.
+///
+/// Returns `None` if the current thread is not a harness helper thread.
+pub(crate) fn try_blocking_send<T>(tx: &tokio::sync::mpsc::Sender<T>, value: T) -> Option<Result<(), ()>> {
+    let mut value = Some(value);
+    let res = block_on(async { tx.send(value.take().unwrap()).await.map_err(|_| ()) });
+    match res {
+        Ok(res) => Some(res),
+        Err(_unpolled) => None,
+    }
+}
+
+/// Replacement for `tokio::sync::mpsc::Receiver::blocking_recv` on harness helper threads.
+///
+/// Returns `None` if the current thread is not a harness helper thread.
+pub(crate) fn try_blocking_recv<T>(rx: &mut tokio::sync::mpsc::Receiver<T>) -> Option<Option<T>> {
+    block_on(async { rx.recv().await }).ok()
+}
+
+/// Random number for port allocation.
+pub(crate) fn random_u32() -> Option<u32> {
+    HOOKS.get().and_then(|hooks| (hooks.random_u32)())
+}
+
+/// Random number for storage keys.
+pub(crate) fn random_u128() -> Option<u128> {
+    HOOKS.get().and_then(|hooks| (hooks.random_u128)())
+}
